@@ -16,19 +16,26 @@
      cm_exec_mirror_all_readings    "denoted" is unambiguous: whatever pair lists read the two arrays, the stacks
                                     are mirror images (Den is functional, flat o rev is injective)
      cm_exec_mirror_total           with no stack limit and enough fuel BOTH calls return, and are mirror images
-     cm_scan_mirror                 the scan over fresh execute() calls (cm_scan: Spec.scan_from with exec_at in place
-                                    of Spec.attempt) in direction rtl from start  is the mirror image of the scan of
+     cm_find_mirror                 the scan over fresh execute() calls (cm_find: Spec.find with exec_at in place of
+                                    Spec.attempt) in direction rtl from start  is the mirror image of the scan of
                                     the flipped program in direction (negb rtl) from n - start
+     cm_vm_find_mirror              the same for the interpreter's own scan VM.vm_find (capacities carried from
+                                    attempt to attempt), any stack limits, whenever both searches return:
+                                    vm_find under a limit = vm_find without (VMLimitSimProofs.vml_limit_transparent),
+                                    and without a limit it visits the states of the fresh-call scan up to allocated
+                                    capacities (cm_vm_find_fresh, from CompileTotal.run_total / exec_total)
 
    [flip] changes option words, anchors and the literal of a Multi only, so the compile fragment and the slot
    condition are invariant under it (cm_flip_supported2, cm_flip_groups_ok2, cm_flip_term_ok, cm_flip_term_fuel):
    no hypothesis about [flip root] is left in the statements. *)
 From Verif Require Import Base.Prelude.
-From Verif Require Import Model.Tree Model.Spec Model.VM Model.Writer
+From Verif Require Import Model.Tree Model.Spec Model.VM Model.Writer Gen.RunnerGen
   Proofs.MirrorProofs
   Proofs.SpecProofs Proofs.SpecBoundsProofs Proofs.SpecTermProofs Proofs.MaskProofs
   Proofs.CompileBase Proofs.CompileDefs Proofs.CompileProofs
   Proofs.CompileBalDen Proofs.CompileBalBase Proofs.CompileBalDefs Proofs.CompileBal
+  Proofs.VMLimitProofs Proofs.VMLimitSimProofs Proofs.VMCapacityProofs Proofs.VMU Proofs.VMUBridge
+  Proofs.CompileTotal Proofs.CompileLimit Proofs.CompileLimitTop
   Proofs.CompileSafe Proofs.CompileFrag Proofs.ComposeExec.
 From Coq Require Import ZifyBool.
 
@@ -354,9 +361,8 @@ Qed.
 
 (* ============================ the scan over fresh execute() calls ============================ *)
 (* Spec.scan_from / Spec.find with one interpreter call (VM.exec_at, a fresh runner) in place of Spec.attempt.
-   NOT VM.vm_find: that scan carries the grown stack capacities from one attempt to the next, and the
-   development has no theorem yet that relates it to Spec.find (CompileLimit.lim_find compares it with itself
-   under another limit).  The two differ in allocated capacities only. *)
+   VM.vm_find differs: it carries the grown stack capacities from one attempt to the next (related to this scan
+   further down, cm_vm_find_fresh). *)
 Fixpoint cm_scan (e : env) (p : program) (L : Z) (vfuel : nat) (n : nat) (rtl : bool) (t : Z) : res (option vm) :=
   match n with
   | O => Ok None
@@ -464,6 +470,158 @@ Theorem cm_find_mirror :
 Proof.
   intros e p p' Htc Htc' Htl L L' vfuel vfuel' o body root Hcodes Hstr Hcodes' Hstr' Hmo Hs Hg Hg' Hok Hf.
   exact (cm_find_mirror_sec e p p' o body Htc Htc' Htl Hcodes Hstr Hcodes' Hstr' Hmo Hs Hg Hg' Hok Hf L L' vfuel vfuel').
+Qed.
+
+(* ============================ the interpreter's own scan VM.vm_find ============================ *)
+(* vm_find carries the (grown) stack capacities of one attempt into the next; cm_find starts every attempt on a
+   fresh runner.  Without a limit the two agree in everything but the capacities: both follow the unbounded path
+   of the attempt (CompileTotal.run_total / exec_total), whatever capacities they start with. *)
+Definition cm_view (a b : vm) : Prop := tp a = tp b /\ mcaps a = mcaps b.
+
+Definition cm_view_rel (r1 r2 : res (option vm)) : Prop :=
+  match r1, r2 with
+  | Ok x, Ok y => opt_rel cm_view x y
+  | Fuel, Fuel => True
+  | _, _ => False
+  end.
+
+Lemma cm_view_norm a b : norm a = norm b -> cm_view a b.
+Proof. intros H. split; [exact (f_equal tp H)|exact (f_equal mcaps H)]. Qed.
+
+Lemma cm_mirrored_view e p p' s s' a a' : cm_view a s -> cm_view a' s' ->
+  cm_mirrored e p p' s s' -> cm_mirrored e p p' a a'.
+Proof.
+  intros [H1 H2] [H3 H4] H. unfold cm_mirrored, matched0 in *. rewrite H1, H2, H3, H4. exact H.
+Qed.
+
+Section VmScan.
+Variable e : env.
+Variable p : program.
+Hypothesis Htc : 0 <= trackcount p.
+Hypothesis Hw : cp_need (codes p) 0 <= trackcount p * G_ensure_factor.
+Variable w0 : Z.
+Hypothesis H0 : code_at p 0 = Some w0.
+Hypothesis Hall : all_paths e p.
+
+Lemma cm_simrel_refl c : simrel (-1) c c.
+Proof. split; [unfold eqv; repeat split|left; reflexivity]. Qed.
+
+Lemma cm_attempt_carrier c t fuel : carrier_ok p c -> 0 <= t <= tlen e ->
+  exists s1, goto p (-1) (fresh p c t) 0 = Ok s1 /\
+    ((run e p (-1) fuel s1 = Fuel /\ exec_at e p (-1) fuel t = Fuel) \/
+     exists a b, run e p (-1) fuel s1 = Ok a /\ exec_at e p (-1) fuel t = Ok b /\ cm_view a b /\ carrier_ok p a).
+Proof.
+  intros Hc Ht. destruct (Hall t Ht) as (n & sd & sd' & Hap).
+  destruct (lim_goto0 e p Hw (-1) c c t w0 n sd sd' H0 (cm_simrel_refl c) Hc Hap)
+    as [[_ Habs]|(s1 & s2 & E1 & E2 & Hgp)]; [lia|].
+  rewrite E1 in E2. injection E2 as <-. exists s1. split; [exact E1|].
+  destruct Hgp as (_ & _ & Hti & Hpo & Hus). destruct Hap as (Hp0 & Hn0 & Hd).
+  destruct (run_total e p Htc Hw (-1) ltac:(lia) fuel n s1 sd sd' Hti Hpo Hus Hd) as [R1 R2].
+  destruct (exec_total e p Htc Hw (-1) ltac:(lia) t n sd sd' w0 H0 Hp0 Hn0 Hd fuel) as [X1 X2].
+  destruct (Nat.lt_ge_cases n (1000 * fuel)) as [Hlt|Hge].
+  - right. destruct (R1 Hlt) as (a & Ea & Na & Ta). destruct (X1 Hlt) as (b & Eb & Nb & _).
+    exists a, b. split; [exact Ea|]. split; [exact Eb|]. split; [apply cm_view_norm; congruence|].
+    apply lim_tinv_carrier. exact Ta.
+  - left. split; [exact (R2 Hge)|exact (X2 Hge)].
+Qed.
+
+Lemma cm_scan_carrier fuel : forall n rtl c t, carrier_ok p c -> 0 <= t <= tlen e ->
+  cm_view_rel (vm_scan_from e p (-1) fuel n rtl c t) (cm_scan e p (-1) fuel n rtl t).
+Proof.
+  induction n as [|n IH]; intros rtl c t Hc Ht; cbn [vm_scan_from cm_scan]; [exact I|].
+  change {| pc := 0; mode := 0; tp := t; track := []; tcap := tcap c; stack := []; scap := scap c;
+            crawl := []; mcaps := repeat [] (Z.to_nat (capsize p)) |} with (fresh p c t).
+  destruct (cm_attempt_carrier c t fuel Hc Ht) as (s1 & E1 & [[Ea Eb]|(a & b & Ea & Eb & Hv & Hca)]);
+    rewrite E1; cbn [bind]; rewrite Ea, Eb; cbn [bind]; [exact I|].
+  assert (Hm : matched0 a = matched0 b) by (unfold matched0; rewrite (proj2 Hv); reflexivity).
+  rewrite Hm. destruct (matched0 b); [exact Hv|].
+  destruct (if rtl then t <=? 0 else tlen e <=? t) eqn:Es; [exact I|].
+  apply IH; [exact Hca|destruct rtl; lia].
+Qed.
+
+Lemma cm_vm_find_view fuel rtl start prevlen : 0 <= start <= tlen e ->
+  cm_view_rel (vm_find e p (-1) fuel rtl start prevlen) (cm_find e p (-1) fuel rtl start prevlen).
+Proof.
+  intros Hs. unfold vm_find, cm_find.
+  destruct ((prevlen =? 0) && (start =? (if rtl then 0 else tlen e))) eqn:E; [exact I|].
+  apply cm_scan_carrier.
+  - unfold carrier_ok, VMUBridge.need, sinit, init_vm, G_ensure_factor, G_tracksize_mul, G_tracksize_min,
+      G_stacksize_mul, G_stacksize_min. cbn [tcap scap].
+    change ((0 <=? -1) && _) with false. cbv iota. split; lia.
+  - destruct (prevlen =? 0); cbn [andb] in E; [|exact Hs]. destruct rtl; lia.
+Qed.
+
+End VmScan.
+
+(* every start position has its unbounded attempt path *)
+Lemma cm_all_paths e p : 0 <= trackcount p -> track_count (codes p) <= trackcount p -> tlen e <= INF ->
+  forall o body, let root := NCapture o 0 (-1) body in
+  codes p = fst (compile cfg0 root) -> strings p = snd (compile cfg0 root) ->
+  supported2 root = true -> groups_ok2 (capsize p) root ->
+  term_ok root = true -> Z.of_nat (term_fuel e root) <= INF ->
+  all_paths e p.
+Proof.
+  intros Htc Htk Htl o body root Hcodes Hstr Hs Hg Hok Hf t Ht.
+  destruct (spec_attempt_total e root t Hok Ht (term_fuel e root) (Nat.le_refl _)) as (r & Hatt & _).
+  exact (clt_path e p Htc Htl (term_fuel e root) o body t r Hcodes Hstr Hs Hg Ht Hf Hatt
+           (compiled_path_ok cfg0 root p Hcodes Htk e t)).
+Qed.
+
+(* vm_find under any limit, when it returns, returns what the fresh-call scan without limit returns (positions and
+   capture tables) *)
+Lemma cm_vm_find_fresh e p : 0 <= trackcount p -> track_count (codes p) <= trackcount p -> tlen e <= INF ->
+  forall o body, let root := NCapture o 0 (-1) body in
+  codes p = fst (compile cfg0 root) -> strings p = snd (compile cfg0 root) ->
+  supported2 root = true -> groups_ok2 (capsize p) root ->
+  term_ok root = true -> Z.of_nat (term_fuel e root) <= INF ->
+  forall L fuel rtl start prevlen x, 0 <= start <= tlen e ->
+  vm_find e p L fuel rtl start prevlen = Ok x ->
+  exists y, cm_find e p (-1) fuel rtl start prevlen = Ok y /\ opt_rel cm_view x y.
+Proof.
+  intros Htc Htk Htl o body root Hcodes Hstr Hs Hg Hok Hf L fuel rtl start prevlen x Hst Hx.
+  destruct (vml_limit_transparent e p L fuel rtl start prevlen x Hx) as (x1 & Hx1 & Hsame).
+  pose proof (cm_vm_find_view e p Htc (clt_weight cfg0 root p Hcodes Htk) Lazybranch (clt_code0 root p Hcodes)
+                (cm_all_paths e p Htc Htk Htl o body Hcodes Hstr Hs Hg Hok Hf) fuel rtl start prevlen Hst) as HV.
+  rewrite Hx1 in HV. unfold cm_view_rel in HV.
+  destruct (cm_find e p (-1) fuel rtl start prevlen) as [y| | |]; try contradiction.
+  exists y. split; [reflexivity|].
+  unfold same_result, opt_rel in *. destruct x as [a|], x1 as [a1|], y as [b|]; try contradiction; try exact I.
+  destruct Hsame as (_ & _ & Ht & _ & _ & _ & _ & Hm). destruct HV as [Ht' Hm']. split; congruence.
+Qed.
+
+(* C15 for the interpreter's scan: any stack limits, any fuels, whenever both searches return *)
+Theorem cm_vm_find_mirror :
+  forall (e : env) (p p' : program), 0 <= trackcount p -> 0 <= trackcount p' ->
+  track_count (codes p) <= trackcount p -> track_count (codes p') <= trackcount p' -> tlen e <= INF ->
+  forall L L' vfuel vfuel' o body,
+  let root := NCapture o 0 (-1) body in
+  codes p = fst (compile cfg0 root) -> strings p = snd (compile cfg0 root) ->
+  codes p' = fst (compile cfg0 (flip root)) -> strings p' = snd (compile cfg0 (flip root)) ->
+  mirror_ok root = true -> supported2 root = true ->
+  groups_ok2 (capsize p) root -> groups_ok2 (capsize p') root ->
+  term_ok root = true -> Z.of_nat (term_fuel e root) <= INF ->
+  forall rtl start prevlen x x', 0 <= start <= tlen e ->
+  vm_find e p L vfuel rtl start prevlen = Ok x ->
+  vm_find (mirror_env e) p' L' vfuel' (negb rtl) (tlen e - start) prevlen = Ok x' ->
+  cm_opt_mirrored e p p' x x'.
+Proof.
+  intros e p p' Htc Htc' Htk Htk' Htl L L' vfuel vfuel' o body root Hcodes Hstr Hcodes' Hstr' Hmo Hs Hg Hg' Hok Hf
+    rtl start prevlen x x' Hst Hx Hx'.
+  assert (Htl' : tlen (mirror_env e) <= INF) by (rewrite mirror_tlen; exact Htl).
+  assert (Hst' : 0 <= tlen e - start <= tlen (mirror_env e)) by (rewrite mirror_tlen; lia).
+  assert (Hs' : supported2 (flip root) = true) by (rewrite cm_flip_supported2; exact Hs).
+  assert (Hgf : groups_ok2 (capsize p') (flip root)) by (apply (proj1 (cm_flip_groups_ok2 _ _)); exact Hg').
+  assert (Hok' : term_ok (flip root) = true) by (rewrite cm_flip_term_ok; exact Hok).
+  assert (Hf' : Z.of_nat (term_fuel (mirror_env e) (flip root)) <= INF) by (rewrite cm_flip_term_fuel; exact Hf).
+  destruct (cm_vm_find_fresh e p Htc Htk Htl o body Hcodes Hstr Hs Hg Hok Hf L vfuel rtl start prevlen x Hst Hx)
+    as (y & Hy & Hv).
+  destruct (cm_vm_find_fresh (mirror_env e) p' Htc' Htk' Htl' (flip_opt o) (flip body) Hcodes' Hstr' Hs' Hgf Hok' Hf'
+              L' vfuel' (negb rtl) (tlen e - start) prevlen x' Hst' Hx') as (y' & Hy' & Hv').
+  pose proof (cm_find_mirror e p p' Htc Htc' Htl (-1) (-1) vfuel vfuel' o body Hcodes Hstr Hcodes' Hstr' Hmo Hs Hg Hg'
+                Hok Hf rtl start prevlen y y' Hst Hy Hy') as HM.
+  unfold cm_opt_mirrored, opt_rel in *.
+  destruct x as [a|], y as [b|]; try contradiction; destruct x' as [a'|], y' as [b'|]; try contradiction; try exact I.
+  exact (cm_mirrored_view e p p' b b' a a' Hv Hv' HM).
 Qed.
 
 (* ============================ non-vacuity ============================ *)
@@ -595,4 +753,41 @@ Proof.
                 ltac:(vm_compute; split; congruence) Ex Ex') as HM.
   vm_compute in Ex. injection Ex as <-. vm_compute in Ex'. injection Ex' as <-.
   do 5 (split; [reflexivity|]). exact HM.
+Qed.
+
+(* the interpreter's own scan on the same instance, left-to-right under a stack limit of 200 words against
+   right-to-left without a limit *)
+Example cm_demo_vm_find :
+  let e := mirror_ex_env [120; 97; 98; 99; 98] 0 false in
+  let root := NCapture 0 0 (-1) cm_demo_body in
+  let p := cm_prog_of 3 root in
+  let p' := cm_prog_of 3 (flip root) in
+  exists s s', vm_find e p 200 5 false 0 (-1) = Ok (Some s) /\
+               vm_find (mirror_env e) p' (-1) 5 true 5 (-1) = Ok (Some s') /\
+               tp s = 5 /\ tp s' = 0 /\
+               mcaps s = [[1; 4]; [1; 1]; [2; 1; 3; 1; 4; 1]] /\
+               mcaps s' = [[0; 4]; [3; 1]; [2; 1; 1; 1; 0; 1]] /\
+               cm_mirrored e p p' s s'.
+Proof.
+  cbv zeta.
+  destruct (vm_find (mirror_ex_env [120; 97; 98; 99; 98] 0 false) (cm_prog_of 3 (NCapture 0 0 (-1) cm_demo_body))
+              200 5 false 0 (-1)) as [[s|]| | |] eqn:Ex; try (vm_compute in Ex; discriminate Ex).
+  destruct (vm_find (mirror_env (mirror_ex_env [120; 97; 98; 99; 98] 0 false))
+              (cm_prog_of 3 (flip (NCapture 0 0 (-1) cm_demo_body))) (-1) 5 true 5 (-1))
+    as [[s'|]| | |] eqn:Ex'; try (vm_compute in Ex'; discriminate Ex').
+  exists s, s'. split; [reflexivity|]. split; [reflexivity|].
+  pose proof (cm_vm_find_mirror (mirror_ex_env [120; 97; 98; 99; 98] 0 false)
+                (cm_prog_of 3 (NCapture 0 0 (-1) cm_demo_body))
+                (cm_prog_of 3 (flip (NCapture 0 0 (-1) cm_demo_body)))
+                ltac:(vm_compute; congruence) ltac:(vm_compute; congruence)
+                ltac:(cbn [cm_prog_of codes trackcount]; lia) ltac:(cbn [cm_prog_of codes trackcount]; lia)
+                ltac:(vm_compute; congruence)
+                200 (-1) 5%nat 5%nat 0 cm_demo_body
+                eq_refl eq_refl eq_refl eq_refl eq_refl eq_refl
+                ltac:(apply groups_ok2b_sound; vm_compute; reflexivity)
+                ltac:(apply groups_ok2b_sound; vm_compute; reflexivity)
+                eq_refl ltac:(vm_compute; congruence)
+                false 0 (-1) (Some s) (Some s') ltac:(vm_compute; split; congruence) Ex Ex') as HM.
+  vm_compute in Ex. injection Ex as <-. vm_compute in Ex'. injection Ex' as <-.
+  do 4 (split; [reflexivity|]). exact HM.
 Qed.
